@@ -16,6 +16,9 @@ ASSUMPTIONS = [
     "(a body that returns has written all its products) are hypotheses; the project is static along a History (edits = arbitrary changes of "
     "file contents incl. module files and products, loss of the state table); add/remove/rewire-task edits are covered by the differential "
     "campaign only",
+    "generated projects also contain: input nodes that are symbolic links edited through their target (model: state = content the spelling denotes), "
+    "a DirectoryNode product declared before / after the ordinary file products of some tasks (its files are implementation-only and never edited; "
+    "model replay and oracle cover the ordinary products), a constant hashed PythonNode dependency; successive builds of one history run under different PYTHONHASHSEEDs",
 ]
 EDITS = ["write", "write", "revert", "rewrite_same", "touch", "delete_input", "bump", "revert_module", "tamper", "delete_product",
          "rewire", "add_task", "remove_task"]
@@ -124,7 +127,8 @@ def histories(ctx):
     rng = ctx.rng
     hs = []
     for i in range(ctx.scale(70, 800)):
-        spec = engine.gen_spec(rng, nt=(2, 7), after_p=0.2, after_needs_prods=True, user_markers=True, marks=(("skip", 0.05),))
+        spec = engine.gen_spec(rng, nt=(2, 7), after_p=0.2, after_needs_prods=True, user_markers=True, marks=(("skip", 0.05),),
+                               link_p=0.3, dirprod_p=0.3, hashed_p=0.25)
         hs.append(histgen.random_history(rng, spec, rng.randint(4, 10), EDITS, CFGS, final_build={}))
     return hs
 
@@ -140,7 +144,7 @@ def run(ctx):
                 "identical rewrite / touch / delete input, bump / revert module, tamper / delete product, rewire dependency, add / remove task), final plain build; "
                 "oracle = product bytes vs F evaluated from scratch along the DAG; non-trivial = ≥2 builds, ≥1 edit and a later successful build that executed something")
     f11b_witness(ctx)
-    engine.run_campaign(ctx, histories(ctx), oracle, nontrivial=nontrivial, sel_eval=engine.sel_eval)
+    engine.run_campaign(ctx, histories(ctx), oracle, nontrivial=nontrivial, sel_eval=engine.sel_eval, rotate_seeds=True)
 
 
 def replay(ctx, obj):
